@@ -58,10 +58,10 @@ def py_den(tree):
 
 class C03(core.Prop):
     ID = 'C03'
-    IMPORTS = 'From FV Require Import Lib.Sym Model.C03.'
+    IMPORTS = 'From FV Require Import Lib.Sym Model.C01 Model.C03 Model.C03Graph.'
     CASE_TYPE = 'C03.case'
-    CHECK_FUN = 'C03.check_case'
-    EXTRA_TARGETS = ['Model/C03.vo', 'Lib/Corr.vo']
+    CHECK_FUN = 'C03Graph.check_case_graph'
+    EXTRA_TARGETS = ['Model/C01.vo', 'Model/C03.vo', 'Model/C03Graph.vo', 'Lib/Corr.vo']
     RULE = (
         'random sequences of 1-6 operators (mapper, apply-only, train-only, separate apply+train actors, each '
         'with or without a label actor, label-only; stateful and stateless actors; each either decorated with the wrap '
